@@ -1,5 +1,5 @@
 import BqVerif.Proofs.C06Product
-import BqVerif.Proofs.C06Params
+import BqVerif.Proofs.C06Alias
 import BqVerif.Proofs.C06Iter
 /-!
 # C06 — circuit simulation equals the ordered product of its operations
@@ -134,19 +134,25 @@ theorem C06_unitary_is_product (conj : α → α) (c : Circ P α) (hc : c.OpsOK)
         = prodRev (loopMats (prod c.radixes) c.radixes (params.length ≠ 0) params c.ops 0) :=
   getUnitary_is_product conj c hc params hps
 
-/-- `get_statevector(StateVector(v, circuit.radixes), params)` = that product applied to `v`.
-`_partial`: the input state must carry the circuit's radixes.  The code builds
-`StateVector(in_state)` and for a plain vector infers the radixes from the dimension
-(`C06_statevector_witness`). -/
-theorem C06_statevector_is_product_partial (conj : α → α) (c : Circ P α) (hc : c.OpsOK)
-    (inState : T α) (hsize : inState.data.size = prod c.radixes) (params : List P)
-    (hps : params = [] ∨ params.length = c.numParams) :
-    ∃ v, c.getStatevector conj inState (some c.radixes) params = .ok v ∧
-      toVec (prod c.radixes) v
-        = Matrix.mulVec
-            (prodRev (loopMats (prod c.radixes) c.radixes (params.length ≠ 0) params c.ops 0))
-            (toVec (prod c.radixes) inState) :=
-  getStatevector_is_product conj c hc inState hsize params hps
+/-- **`get_statevector(v, params)` = that product applied to `v`**, for a plain vector
+(`sr = none`: the code builds `StateVector(in_state, self.radixes)`) and for a `StateVector`
+carrying the circuit's radixes (`hsr` says: `sr` is `none` or `some c.radixes`; a
+`StateVector` built by the caller with other radixes keeps them and is outside the
+property).  A vector of the wrong dimension is a `ValueError`. -/
+theorem C06_statevector_is_product (conj : α → α) (c : Circ P α) (hc : c.OpsOK)
+    (inState : T α) (sr : Option (List Nat)) (hsr : sr.getD c.radixes = c.radixes)
+    (params : List P) (hps : params = [] ∨ params.length = c.numParams) :
+    (inState.data.size = prod c.radixes →
+      ∃ v, c.getStatevector conj inState sr params = .ok v ∧
+        toVec (prod c.radixes) v
+          = Matrix.mulVec
+              (prodRev (loopMats (prod c.radixes) c.radixes (params.length ≠ 0) params c.ops 0))
+              (toVec (prod c.radixes) inState)) ∧
+    (inState.data.size ≠ prod c.radixes →
+      c.getStatevector conj inState sr params = .error .valueError) :=
+  ⟨fun hsize => getStatevector_is_product conj c hc inState hsize sr hsr params hps,
+   fun hsize => getStatevector_dim_error conj c inState sr
+     (by rw [hsr]; exact fun h => hsize h.symm) params hps⟩
 
 /-- **`get_unitary_and_grad`** returns the ordered product and, in flat-parameter order,
 `R_j · (embed(∂_k U_j) · L_j)` with `R_j = E_n ⋯ E_{j+1}`, `L_j = E_{j-1} ⋯ E_1`
@@ -223,29 +229,6 @@ example {R : Type} [Ring R] (x : R) :
 example : ∃ l : List (Int × Int × List Int), l ≠ [] ∧ ∀ x ∈ l, x.1 * x.2.1 = 1 :=
   ⟨[(1, 1, [2, 3]), (-1, -1, [5])], by decide, by decide⟩
 
-/-! ## the defect of `get_statevector` on plain vectors -/
-
-/-- `X` on qudit 1 of a circuit with radixes `[4, 2]`. -/
-def wX : GOp Unit Int :=
-  { gid := 0, loc := [1], params := [], numParams := 0, radixes := [2],
-    unitary := fun _ => ⟨[2, 2], #[0, 1, 1, 0]⟩, grad := fun _ => [] }
-def wCirc : Circ Unit Int := ⟨[4, 2], 1, [(0, wX)]⟩
-def wE0 : T Int := ⟨[8], #[1, 0, 0, 0, 0, 0, 0, 0]⟩
-def outList (r : Except Err (T Int)) : Option (List Int) :=
-  match r with
-  | .ok t => some t.data.toList
-  | .error _ => none
-
-/-- The full statement "`get_statevector(v)` = product · `v`" FAILS for a plain vector
-(`stateRadixes = none`): on `Circuit(2, [4, 2])` with `X` on qudit 1 the model — like the
-real code — maps `|0⟩` to `|2⟩`, whereas with the circuit's radixes (and by
-`C06_unitary_is_product`) the answer is `|1⟩`.  Replayed on the real code by
-`harness/c06.py:fixed_cases`. -/
-theorem C06_statevector_witness :
-    outList (wCirc.getStatevector id wE0 none []) = some [0, 0, 1, 0, 0, 0, 0, 0] ∧
-    outList (wCirc.getStatevector id wE0 (some [4, 2]) []) = some [0, 1, 0, 0, 0, 0, 0, 0] := by
-  decide
-
 /-! ## the flat parameter vector -/
 
 /-- **`get_param_location i = (cycle, qudit, k)` addresses flat parameter `i`**: the
@@ -269,20 +252,27 @@ theorem C06_get_param {c : Circ P α} (hwf : c.WF) (i : Nat) (hi : i < c.params.
     c.getParam (i : Int) = .ok (c.params[i]) :=
   getParam_eq hwf i hi
 
-/-- `set_param i v` overwrites entry `i` of the flat vector and nothing else. -/
-theorem C06_set_param {c : Circ P α} (hwf : c.WF) (i : Nat) (hi : i < c.params.length) (v : P) :
+/-- `set_param i v` overwrites entry `i` of the flat vector and nothing else.
+`_partial`: provided no `Operation` object occupies two grid entries (`OidsDistinct`);
+the model — like the code, which mutates the object in place — otherwise changes every
+alias (`C06_shared_operation_witness`). -/
+theorem C06_set_param_partial {c : Circ P α} (hwf : c.WF) (hd : c.OidsDistinct) (i : Nat)
+    (hi : i < c.params.length) (v : P) :
     ∃ c', c.setParam (i : Int) v = .ok c' ∧ c'.params = c.params.set i v ∧
       c'.radixes = c.radixes ∧ c'.numCycles = c.numCycles ∧
       c'.ops.map (fun e => (e.1, e.2.loc, e.2.numParams))
-        = c.ops.map (fun e => (e.1, e.2.loc, e.2.numParams)) ∧ c'.WF :=
-  setParam_params hwf i hi v
+        = c.ops.map (fun e => (e.1, e.2.loc, e.2.numParams)) ∧ c'.WF := by
+  rw [setParam_eq_val hd]
+  exact setParam_params hwf i hi v
 
-/-- `set_params p; params == p`, and `ValueError` exactly on a length mismatch. -/
-theorem C06_set_params_roundtrip (c : Circ P α) (ps : List P) :
-    (ps.length = c.numParams → ∃ c', c.setParams ps = .ok c' ∧ c'.params = ps ∧
-      c'.numParams = c.numParams) ∧
+/-- `set_params p; params == p` (`_partial`: under `OidsDistinct`), and `ValueError` exactly
+on a length mismatch (always). -/
+theorem C06_set_params_roundtrip_partial (c : Circ P α) (ps : List P) :
+    (c.OidsDistinct → ps.length = c.numParams →
+      ∃ c', c.setParams ps = .ok c' ∧ c'.params = ps ∧ c'.numParams = c.numParams) ∧
     (ps.length ≠ c.numParams → c.setParams ps = .error .valueError) := by
-  refine ⟨fun h => ?_, setParams_err c ps⟩
+  refine ⟨fun hd h => ?_, setParams_len_err c ps⟩
+  rw [setParams_eq_val hd]
   obtain ⟨c', h1, h2, h3, _⟩ := setParams_roundtrip c ps h
   exact ⟨c', h1, h2, h3⟩
 
@@ -296,21 +286,52 @@ theorem C06_freeze_param [Semiring α] (conj : α → α) {c : Circ P α} (hwf :
   exact ⟨c', h1, h2, h3, freezeParam_getUnitary conj hwf i hi gid c' h1⟩
 
 /-- **Passing parameters explicitly = storing them first**, for `get_unitary`,
-`get_statevector` and `get_unitary_and_grad` (results *and* errors coincide). -/
-theorem C06_explicit_params_eq_stored [Semiring α] (conj : α → α) {c : Circ P α} (hwf : c.WF)
-    (ps : List P) (hne : ps ≠ []) (c' : Circ P α) (h : c.setParams ps = .ok c') :
+`get_statevector` and `get_unitary_and_grad` (results *and* errors coincide).
+`_partial`: under `OidsDistinct` (see `C06_shared_operation_witness`). -/
+theorem C06_explicit_params_eq_stored_partial [Semiring α] (conj : α → α) {c : Circ P α}
+    (hwf : c.WF) (hd : c.OidsDistinct) (ps : List P) (hne : ps ≠ []) (c' : Circ P α)
+    (h : c.setParams ps = .ok c') :
     c'.getUnitary conj [] = c.getUnitary conj ps ∧
     (∀ v sr, c'.getStatevector conj v sr [] = c.getStatevector conj v sr ps) ∧
-    c'.getUnitaryAndGrad conj [] = c.getUnitaryAndGrad conj ps :=
-  ⟨explicit_eq_stored_unitary conj hwf ps hne c' h,
+    c'.getUnitaryAndGrad conj [] = c.getUnitaryAndGrad conj ps := by
+  rw [setParams_eq_val hd] at h
+  exact ⟨explicit_eq_stored_unitary conj hwf ps hne c' h,
    fun v sr => explicit_eq_stored_state conj hwf ps hne c' h v sr,
    explicit_eq_stored_grad conj hwf ps hne c' h⟩
 
+/-! ### the same `Operation` object in two grid entries -/
+
+/-- `op = Operation(G, [0], [1]); c.append(op); c.append(op)` (one object, `oid = 7`). -/
+def wShared : Circ Nat Int :=
+  let op : GOp Nat Int :=
+    { oid := 7, gid := 0, loc := [0], params := [1], numParams := 1, radixes := [2],
+      unitary := fun _ => identity 2, grad := fun _ => [] }
+  ⟨[2], 2, [(0, op), (1, op)]⟩
+
+def outParams (r : Except Err (Circ Nat Int)) : Option (List Nat) :=
+  match r with
+  | .ok c => some c.params
+  | .error _ => none
+
+/-- The full statements fail when an `Operation` object is shared: after
+`set_params([3, 4])` the flat vector is `[4, 4]`, and `set_param(0, 9)` also changes
+entry 1.  Replayed on the real code by `harness/c06.py:fixed_cases`. -/
+theorem C06_shared_operation_witness :
+    wShared.WF ∧ ¬ wShared.OidsDistinct ∧
+    outParams (wShared.setParams [3, 4]) = some [4, 4] ∧
+    outParams (wShared.setParam 0 9) = some [9, 9] := by
+  refine ⟨⟨?_, ?_⟩, by unfold Circ.OidsDistinct; decide, by decide, by decide⟩
+  · intro e he
+    simp only [wShared, List.mem_cons, List.not_mem_nil, or_false] at he
+    rcases he with rfl | rfl <;> decide
+  · simp only [wShared]
+    decide
+
 /-- non-vacuity: a well-formed circuit with parameters, and a successful `set_params`. -/
-def nvOp (loc : List Nat) (ps : List Nat) : GOp Nat Int :=
-  { gid := 0, loc := loc, params := ps, numParams := ps.length, radixes := loc.map (fun _ => 2),
+def nvOp (oid : Nat) (loc : List Nat) (ps : List Nat) : GOp Nat Int :=
+  { oid := oid, gid := 0, loc := loc, params := ps, numParams := ps.length, radixes := loc.map (fun _ => 2),
     unitary := fun _ => identity (2 ^ loc.length), grad := fun _ => [] }
-def nvCirc : Circ Nat Int := ⟨[2, 2, 2], 2, [(0, nvOp [2, 0] [7, 8]), (0, nvOp [1] []), (1, nvOp [1, 2] [9])]⟩
+def nvCirc : Circ Nat Int := ⟨[2, 2, 2], 2, [(0, nvOp 0 [2, 0] [7, 8]), (0, nvOp 1 [1] []), (1, nvOp 2 [1, 2] [9])]⟩
 
 private theorem nvCirc_wf : nvCirc.WF := by
   refine ⟨?_, ?_⟩
@@ -327,12 +348,12 @@ private theorem nvCirc_opsOK : nvCirc.OpsOK := by
   rcases he with rfl | rfl | rfl <;>
     exact ⟨by decide, by decide, fun _ => rfl, fun _ g hg => by simp [nvOp] at hg, by decide⟩
 
-/-- hypotheses of `C06_unitary_is_product`, `C06_statevector_is_product_partial`,
+/-- hypotheses of `C06_unitary_is_product`, `C06_statevector_is_product`,
 `C06_grad_loop` are satisfiable (explicit parameters included). -/
 example : nvCirc.OpsOK ∧ ([1, 2, 3] : List Nat).length = nvCirc.numParams :=
   ⟨nvCirc_opsOK, by decide⟩
 
-def nvCircU : Circ Nat Int := ⟨[2, 2], 1, [(0, nvOp [1] [5])]⟩
+def nvCircU : Circ Nat Int := ⟨[2, 2], 1, [(0, nvOp 0 [1] [5])]⟩
 
 /-- ... and so is the gate-unitarity hypothesis of `C06_grad_loop_unitary_gates`. -/
 example : nvCircU.OpsOK ∧
@@ -351,6 +372,9 @@ example : nvCircU.OpsOK ∧
     congr 1
 
 example : nvCirc.WF := nvCirc_wf
+example : nvCirc.OidsDistinct := by unfold Circ.OidsDistinct; decide
+example : (none : Option (List Nat)).getD nvCirc.radixes = nvCirc.radixes ∧
+    (some nvCirc.radixes).getD nvCirc.radixes = nvCirc.radixes := ⟨rfl, rfl⟩
 example : nvCirc.params = [7, 8, 9] := by decide
 example : (2 : Nat) < nvCirc.params.length := by decide
 example : ∃ c', nvCirc.setParams [1, 2, 3] = .ok c' :=
@@ -367,7 +391,10 @@ some cell of the operation lies on a requested qudit, inside that qudit's cycle 
 between `start` and `end`; with `exclude`, *every* cell of the operation lies on requested
 qudits inside their intervals.  Each operation occurs once, and cycles are visited in
 order (ascending, or descending with `reverse`).  (Within one cycle the order is that of the
-first requested cell of each operation, `specIter`.) -/
+first requested cell of each operation, `specIter`.)  `ItArgsOK` only asks that the qudits
+of an explicit region exist and that the cycle of an explicit `end` exists — outside that the
+real iterator raises IndexError as soon as it visits a cell outside the grid; negative
+coordinates of `start`/`end` and empty circuits are covered. -/
 theorem C06_restricted_iter {c : Circ P α} (hwf : c.WF) {a : ItArgs} {cfg : ItCfg}
     (hnd : isDefaultArgs a = false)
     (hcfg : mkCfg c.radixes.length c.numCycles a = .ok cfg) (ha : ItArgsOK c a) :
@@ -402,15 +429,12 @@ example : ∃ cfg, mkCfg nvCirc.radixes.length nvCirc.numCycles nvArgs = .ok cfg
   (mkCfg_ok_iff _ _ nvArgs _).2 ⟨_, _, rfl, by decide, rfl⟩ |> fun h => ⟨_, h⟩
 
 example : ItArgsOK nvCirc nvArgs := by
-  refine ⟨?_, ?_, ?_, ?_, ?_⟩
+  refine ⟨?_, ?_⟩
   · intro r h e he
     simp only [nvArgs, Mode.region.injEq] at h
     subst h
     simp only [List.mem_cons, List.not_mem_nil, or_false] at he
     rcases he with rfl | rfl <;> decide
   · intro e h; cases h
-  · intro _ e h; cases h
-  · intro h; cases h
-  · intro _ _; decide
 
 end BqVerif.C06
